@@ -64,7 +64,11 @@ const (
 	wNested           // try { bb = { work; throw "in" }; bb() } catch (e2) { log } : caught inside the block
 	wComplete         // t.Complete() : the block ends its own transaction
 	wRollback         // t.Rollback()
+	wLoop             // a loop in the block whose body is try { work; [throw]; [continue|break] } catch (e3) { log; [continue|break] }; tail
 )
+
+var loopKinds = []string{"while", "forever", "for-in", "for(;;)", "do-while"}
+var loopExits = []string{"", "continue", "break"}
 
 // tranErr is how the model names the error raised by using, completing or
 // rolling back a transaction that has already been ended the other way
@@ -77,8 +81,13 @@ func isTranErr(s string) bool {
 type step struct {
 	kind  int
 	k, v  kexpr
-	inner []step // wNested: work done by the nested block before it throws
+	inner []step // wNested: work done by the nested block before it throws; wLoop: work in the try body
 	id    int
+	// wLoop: j runs 1..n
+	loopKind, n      int
+	throwAt          int // the try body throws when j is throwAt (0: never)
+	tryExit, tryExitAt int // 0 none, 1 continue, 2 break at the end of the try body (tryExitAt 0: every iteration)
+	catchExit        int // the same at the end of the catch body
 }
 
 const (
@@ -141,6 +150,51 @@ func (s step) src(d int, allowTry bool) string {
 	case wRead:
 		return t + "r = t.Query1(" + q(`"`+c42table+` where k is "`, s.k.src()) + ")\n" +
 			t + `log.Add("read " $ ` + s.k.src() + ` $ "=" $ (r is false ? "none" : r.v))` + "\n"
+	case wLoop:
+		var sb strings.Builder
+		t1 := t + "\t"
+		switch s.loopKind {
+		case 0:
+			sb.WriteString(fmt.Sprintf("%sj = 0\n%swhile j < %d\n%s\t{\n%s++j\n", t, t, s.n, t, t1))
+		case 1:
+			sb.WriteString(fmt.Sprintf("%sj = 0\n%sforever\n%s\t{\n%s++j\n%sif j > %d\n%s\t{ break }\n", t, t, t, t1, t1, s.n, t1))
+		case 2:
+			var js []string
+			for j := 1; j <= s.n; j++ {
+				js = append(js, fmt.Sprint(j))
+			}
+			sb.WriteString(fmt.Sprintf("%sfor j in #(%s)\n%s\t{\n", t, strings.Join(js, ", "), t))
+		case 3:
+			sb.WriteString(fmt.Sprintf("%sfor (j = 1; j <= %d; ++j)\n%s\t{\n", t, s.n, t))
+		default:
+			sb.WriteString(fmt.Sprintf("%sj = 0\n%sdo\n%s\t{\n%s++j\n", t, t, t, t1))
+		}
+		sb.WriteString(t1 + "try\n" + t1 + "\t{\n")
+		for _, in := range s.inner {
+			sb.WriteString(in.src(d+2, false))
+		}
+		if s.throwAt > 0 {
+			sb.WriteString(fmt.Sprintf("%s\tif j is %d\n%s\t\t{ throw \"L%d\" }\n", t1, s.throwAt, t1, s.id))
+		}
+		if s.tryExit != 0 {
+			if s.tryExitAt > 0 {
+				sb.WriteString(fmt.Sprintf("%s\tif j is %d\n%s\t\t{ %s }\n", t1, s.tryExitAt, t1, loopExits[s.tryExit]))
+			} else {
+				sb.WriteString(t1 + "\t" + loopExits[s.tryExit] + "\n")
+			}
+		}
+		sb.WriteString(t1 + "\t}\n" + t1 + "catch (e3)\n" + t1 + "\t{\n" + t1 + "\tlog.Add(\"loopcatch:\" $ e3)\n")
+		if s.catchExit != 0 {
+			sb.WriteString(t1 + "\t" + loopExits[s.catchExit] + "\n")
+		}
+		sb.WriteString(t1 + "\t}\n")
+		sb.WriteString(t1 + "log.Add(\"tail \" $ j)\n")
+		if s.loopKind == 4 {
+			sb.WriteString(fmt.Sprintf("%s\t} while j < %d\n", t, s.n))
+		} else {
+			sb.WriteString(t + "\t}\n")
+		}
+		return sb.String()
 	case wComplete:
 		return t + "t.Complete()\n"
 	case wRollback:
@@ -272,6 +326,10 @@ type c42model struct {
 	ended        int
 	explicitEnds map[string]int // class: explicit end + how the block was left
 	useAfterEnd  int
+	// loops with try/catch inside blocks
+	loops, contFromTry, breakFromTry, exitFromCatch, loopCaught int
+	contInBlock                                                bool // a continue ran from inside a try body in the current block
+	contThenThrow                                              int
 }
 
 func copyTable(m map[int]int) map[int]int {
@@ -314,7 +372,7 @@ func (m *c42model) work(s step, tmp map[int]int) ctl {
 			return ctl{2, tranErr}
 		}
 		return ctl{}
-	case m.ended != 0 && s.kind != wNested:
+	case m.ended != 0 && s.kind != wNested && s.kind != wLoop:
 		m.useAfterEnd++
 		return ctl{2, tranErr} // the transaction can no longer be used
 	}
@@ -336,6 +394,47 @@ func (m *c42model) work(s step, tmp map[int]int) ctl {
 			m.log = append(m.log, fmt.Sprintf("read %d=%d", k, x))
 		} else {
 			m.log = append(m.log, fmt.Sprintf("read %d=none", k))
+		}
+	case wLoop:
+		m.loops++
+	loop:
+		for j := 1; j <= s.n; j++ {
+			m.env["j"] = j
+			// try body
+			thrown := ""
+			for _, in := range s.inner {
+				if c := m.work(in, tmp); c.kind == 2 {
+					thrown = c.val
+					break
+				}
+			}
+			if thrown == "" && s.throwAt == j {
+				thrown = fmt.Sprintf("L%d", s.id)
+			}
+			exit := 0
+			if thrown != "" {
+				m.log = append(m.log, "loopcatch:"+thrown)
+				m.loopCaught++
+				exit = s.catchExit
+				if exit != 0 {
+					m.exitFromCatch++
+				}
+			} else if s.tryExit != 0 && (s.tryExitAt == 0 || s.tryExitAt == j) {
+				exit = s.tryExit
+				if exit == 1 {
+					m.contFromTry++
+					m.contInBlock = true
+				} else {
+					m.breakFromTry++
+				}
+			}
+			switch exit {
+			case 1:
+				continue loop
+			case 2:
+				break loop
+			}
+			m.log = append(m.log, fmt.Sprintf("tail %d", j))
 		}
 	case wNested:
 		for _, in := range s.inner {
@@ -374,8 +473,17 @@ func (m *c42model) exit(x exitStep, id int) (ctl, bool) {
 }
 
 func (m *c42model) tran(b *tranBlock) ctl {
+	c := m.tran1(b)
+	if c.kind == 2 && m.contInBlock {
+		m.contThenThrow++ // continue out of a try body, then an exception outside any try
+	}
+	return c
+}
+
+func (m *c42model) tran1(b *tranBlock) ctl {
 	m.blocks++
 	m.ended = 0
+	m.contInBlock = false
 	before := m.table
 	tmp := copyTable(m.table)
 	var c ctl
@@ -504,9 +612,10 @@ func (g *c42gen) guard(inLoop bool) *guard {
 }
 
 func (g *c42gen) step(inLoop, allowTry, inner bool) step {
-	w := []int{26, 16, 12, 8, 12, 6, 12, 8}
+	w := []int{26, 16, 12, 8, 12, 6, 12, 8, 0, 0, 14}
 	if !allowTry || inner {
 		w[wNested] = 0
+		w[wLoop] = 0 // the compiler rejects a try nested in a try (also through blocks)
 	}
 	if inner {
 		// whether a transaction survives a failed insert that is caught inside
@@ -523,6 +632,28 @@ func (g *c42gen) step(inLoop, allowTry, inner bool) step {
 		for n := gen.Uniform(g.t, "ninner", 3); n > 0; n-- {
 			s.inner = append(s.inner, g.step(inLoop, false, true))
 		}
+	}
+	if s.kind == wLoop {
+		g.nextID++
+		s.id = g.nextID
+		s.loopKind = gen.Uniform(g.t, "loopkind", 5)
+		s.n = 2 + gen.Uniform(g.t, "loopn", 2)
+		for n := gen.Uniform(g.t, "nloopwork", 3); n > 0; n-- {
+			in := g.step(inLoop, false, true)
+			if gen.Chance(g.t, "keyj", 50) {
+				in.k.v = "j"
+			}
+			s.inner = append(s.inner, in)
+		}
+		s.throwAt = gen.Uniform(g.t, "throwat", s.n+2) // 0 and n+1: never
+		if s.throwAt > s.n {
+			s.throwAt = 0
+		}
+		s.tryExit = gen.Weighted(g.t, "tryexit", []int{20, 55, 25})
+		if gen.Chance(g.t, "tryexitguarded", 40) {
+			s.tryExitAt = 1 + gen.Uniform(g.t, "tryexitat", s.n)
+		}
+		s.catchExit = gen.Weighted(g.t, "catchexit", []int{50, 28, 22})
 	}
 	return s
 }
@@ -724,7 +855,7 @@ func c42case(t *rapid.T, rec *ev.Rec, l *lang) {
 		if strings.HasPrefix(s, "inner:") && strings.Contains(s, "duplicate key") {
 			s = "inner:duplicate key"
 		}
-		for _, pre := range []string{"inner:", "outer:"} {
+		for _, pre := range []string{"inner:", "outer:", "loopcatch:"} {
 			if strings.HasPrefix(s, pre) && isTranErr(s[len(pre):]) {
 				s = pre + tranErr
 			}
@@ -772,6 +903,13 @@ func c42case(t *rapid.T, rec *ev.Rec, l *lang) {
 		}
 	}
 	rec.LabelN("use_of_transaction_after_explicit_end", m.useAfterEnd)
+	rec.LabelN("loops_with_try_in_block", m.loops)
+	rec.LabelN("continue_from_try_body", m.contFromTry)
+	rec.LabelN("break_from_try_body", m.breakFromTry)
+	rec.LabelN("continue_or_break_from_catch_body", m.exitFromCatch)
+	rec.LabelN("caught_in_loop_try", m.loopCaught)
+	rec.LabelN("block_continue_out_of_try_then_throw_outside_try", m.contThenThrow)
+	rec.LabelIf(m.contThenThrow > 0, "program_continue_out_of_try_then_throw_outside_try")
 	rec.LabelN("blocks_executed", m.blocks)
 	rec.LabelN("blocks_committed_with_visible_work", m.committedWithWork)
 	rec.LabelN("blocks_rolledback_with_work_undone", m.rolledBackWithWork)
@@ -788,7 +926,7 @@ func c42case(t *rapid.T, rec *ev.Rec, l *lang) {
 
 // TestC42: transaction blocks commit exactly when the block completes.
 func TestC42(t *testing.T) {
-	rec := ev.New("C42", "rapid-generated Suneido functions with 1-3 top-level statements (transaction block, for loop over 2-3 iterations, try/catch, log) containing `Transaction(update:) { |t| work; EXIT }` blocks: work = 1-4 of QueryDo insert/update/delete, query.Output, record.Update, record.Delete, a logged read, or a nested block that does work, throws and is caught inside the block; EXIT = optional guarded exits (on the loop variable or a function argument) and a final one from fall through / return / throw / break / continue / nested block that throws uncaught / nested block that returns (also through a try) / nested break; a duplicate-key insert makes the work itself throw. 25% of the blocks also call t.Complete() / t.Rollback() themselves (1-2 calls at any position; later work then fails on the ended transaction) before leaving in any of these ways. Compiled and called through the real interpreter and Transaction builtin on a db19 HeapStor database (StartConcur, DbmsLocal installed with core.GetDbms), table reset per case with an explicit transaction. Oracle: own interpreter of the program tree - work of a block is applied to the model table iff the block fell through or returned; the function result / the exception reaching the caller, the trace (reads inside transactions, values returned by Transaction, caught exceptions) and the table read back through a new explicit read transaction must match; no update transaction stays open. Non-trivial: a program in which at least one executed block had work that changes the table at its exit; distinct = by rendered setup + program.")
+	rec := ev.New("C42", "rapid-generated Suneido functions with 1-3 top-level statements (transaction block, for loop over 2-3 iterations, try/catch, log) containing `Transaction(update:) { |t| work; EXIT }` blocks: work = 1-4 of QueryDo insert/update/delete, query.Output, record.Update, record.Delete, a logged read, or a nested block that does work, throws and is caught inside the block; EXIT = optional guarded exits (on the loop variable or a function argument) and a final one from fall through / return / throw / break / continue / nested block that throws uncaught / nested block that returns (also through a try) / nested break; a duplicate-key insert makes the work itself throw. 25% of the blocks also call t.Complete() / t.Rollback() themselves (1-2 calls at any position; later work then fails on the ended transaction) before leaving in any of these ways. A work step can also be a loop (while, forever, for-in, for(;;), do-while over j = 1..2-3) whose body is try { work; optional throw at one j; optional continue/break } catch { log; optional continue/break } plus a tail log. Compiled and called through the real interpreter and Transaction builtin on a db19 HeapStor database (StartConcur, DbmsLocal installed with core.GetDbms), table reset per case with an explicit transaction. Oracle: own interpreter of the program tree - work of a block is applied to the model table iff the block fell through or returned; the function result / the exception reaching the caller, the trace (reads inside transactions, values returned by Transaction, caught exceptions) and the table read back through a new explicit read transaction must match; no update transaction stays open. Non-trivial: a program in which at least one executed block had work that changes the table at its exit; distinct = by rendered setup + program.")
 	rec.Assumptions = []string{
 		"model written from suneidoc Database/Reference/Transaction/Transaction.md, Language/Blocks.md, Language/Statements/return.md",
 		"single client: commits cannot conflict, the documented 'block commit failed' path is not explored",
